@@ -205,18 +205,102 @@ def correspondence(res, r, tier):
     return n, len(strs)
 
 
+
+def leg_Q(res, r, tier):
+    """Model/FStr.v against f_string.Str / f_string.Bytes: for crafted values, the four texts the real __str__ hands to eval() (one per
+    starting quote, in order) are the model's candidates; and during real minify runs every Str/Bytes is created with the full quote list
+    and pep701 on (the configuration the theorems are about)"""
+    import builtins, warnings
+    import python_minifier
+    import python_minifier.f_string as fs
+    full = ['"', "'", '"""', "'''"]
+    qcoq = ['{| qc := 34; qlong := false |}', '{| qc := 39; qlong := false |}', '{| qc := 34; qlong := true |}', '{| qc := 39; qlong := true |}']
+    rec = []
+    had = hasattr(fs, 'eval')
+    fs.eval = lambda s_: (rec.append(s_), builtins.eval(s_))[1]
+    strs = [x for x in crafted_strings(r, tier) if x != ''] + ['\r', 'a\rb', '\x00', 'a\x001', '\ud800', 'x\udfffy', '\n', "\n'\r\"", 'é"中\'', "'" * 7, '"' * 7, '\'"' * 5]
+    if tier == 'quick':
+        strs = strs[:250] + strs[-14:]
+    cases = []
+    try:
+        for s_ in strs:
+            del rec[:]
+            try:
+                with warnings.catch_warnings():
+                    warnings.simplefilter('ignore')
+                    str(fs.Str(s_, list(full), True))
+            except Exception:
+                pass
+            if len(rec) == 4:
+                cases.append(' && '.join('opt_text_eqb (str_candidate %s %s) (Some %s)' % (qcoq[i], common.coq_N_list(s_), common.coq_N_list(rec[i])) for i in range(4)))
+            else:
+                cases.append('false')
+            try:
+                b_ = s_.encode('latin-1')
+            except UnicodeEncodeError:
+                continue
+            del rec[:]
+            try:
+                with warnings.catch_warnings():
+                    warnings.simplefilter('ignore')
+                    str(fs.Bytes(b_, list(full), True))
+            except Exception:
+                pass
+            if len(rec) == 4:
+                cases.append(' && '.join('opt_text_eqb (bytes_candidate %s %s) (Some %s)' % (qcoq[i], common.coq_N_list(list(b_)), common.coq_N_list(rec[i])) for i in range(4)))
+            else:
+                cases.append('false')
+    finally:
+        if had:
+            fs.eval = builtins.eval
+        else:
+            del fs.eval
+    n, failing, raw = common.run_cases('c12Q', ['From PM Require Import Model.Base Model.Renamer Model.MiniString Model.FStr.', 'Open Scope bool_scope.'], cases, shard=200)
+    if failing is None:
+        res.broken.append(('correspondence', 'leg Q: f-string literal model evaluation failed: ' + raw[-500:]))
+    elif failing:
+        res.broken.append(('correspondence', 'leg Q: Model/FStr.v disagrees with f_string.Str/Bytes (texts passed to eval for the four starting quotes) on %d of %d values, e.g. %s' % (len(failing), n, cases[failing[0]][:300])))
+    # the configuration: full quote list and pep701 on, for every nested constant of real runs
+    seen = collections.Counter()
+    o_str, o_bytes = fs.Str.__init__, fs.Bytes.__init__
+
+    def w_str(self, s_, allowed_quotes, pep701=False):
+        seen[('Str', tuple(allowed_quotes), bool(pep701))] += 1
+        return o_str(self, s_, allowed_quotes, pep701)
+
+    def w_bytes(self, b_, allowed_quotes, *a, **k):
+        pep = (a[0] if a else k.get('pep701', False))
+        seen[('Bytes', tuple(allowed_quotes), bool(pep))] += 1
+        return o_bytes(self, b_, allowed_quotes, *a, **k)
+    fs.Str.__init__, fs.Bytes.__init__ = w_str, w_bytes
+    try:
+        for src in fstr.sources(r, 60 if tier == 'quick' else 600):
+            try:
+                with warnings.catch_warnings():
+                    warnings.simplefilter('ignore')
+                    python_minifier.minify(src)
+            except Exception:
+                pass
+    finally:
+        fs.Str.__init__, fs.Bytes.__init__ = o_str, o_bytes
+    odd = [k for k in seen if k[1] != tuple(full) or not k[2]]
+    if odd or not seen:
+        res.broken.append(('correspondence', 'leg Q: nested string/bytes constants are rendered with a configuration the theorems do not cover (quote list / pep701): %r' % (odd[:3] or 'no nested constant was rendered')))
+    return n, sum(seen.values())
+
 def run(pid, tier):
     res = common.Result(pid, tier)
     res.trusted = TRUSTED
     res.assumptions = ['CPython evaluates a single string/number literal token without side effects', 'codec imports (encodings.*) triggered by a PEP 263 cookie are the interpreter\'s decoder, not evaluation of input']
-    common.standard_proof_phase(res, ['evalsites'], 'Properties/C12.v', model_targets=['Model/MiniString.vo'])
+    common.standard_proof_phase(res, ['evalsites'], 'Properties/C12.v', model_targets=['Model/MiniString.vo', 'Model/FStr.vo', 'Model/Renamer.vo'])
     r = common.rng(pid)
     with common.coq_lock():
         ncases, nstr = correspondence(res, r, tier)
+        nQ, nQcfg = leg_Q(res, r, tier)
     progs = programs(r, tier if not res.broken else 'thorough')
     ncase, n_eval, kinds, samples = monitor(res, progs, tier)
     res.samples = [{'evaluated_text': t_} for t_ in samples] + [{'program': progs[5]}]
-    res.coverage.update({'model_cases_compared': ncases, 'strings': nstr, 'monitored_minify_calls': ncase, 'eval_events_classified': n_eval,
+    res.coverage.update({'leg_Q_fstring_values_compared': nQ, 'leg_Q_nested_constants_rendered_with_full_quotes_and_pep701': nQcfg, 'model_cases_compared': ncases, 'strings': nstr, 'monitored_minify_calls': ncase, 'eval_events_classified': n_eval,
                          'evaluations': ncase + ncases, 'distinct_nontrivial': len(set(progs)) + nstr,
                          'rule': 'model case = (string, quote, safe mode) through Model/MiniString.v vs ministring.py; monitored case = program with crafted strings/bytes/f-strings/literal arithmetic minified under an audit hook; non-trivial = distinct program text',
                          'audit_event_histogram': dict(kinds)})
